@@ -424,6 +424,8 @@ func fkGenTree(r *Rng, n int, mode string, first uint64, wild bool) *fkTree {
 	newID := func() uint64 { t.nextID += uint64(1 + r.Intn(3)); return t.nextID }
 	libID := newID()
 	t.lib = fkRef{libID, base}
+	// a LIB that never moves: every block declares the starting LIB (the class of c01_fixed_lib_partial)
+	frozen := mode == "excl" && !wild && r.Chance(15)
 	var root fkBlock
 	switch mode {
 	case "excl", "incl":
@@ -431,6 +433,9 @@ func fkGenTree(r *Rng, n int, mode string, first uint64, wild bool) *fkTree {
 		root = fkBlock{ID: libID, Num: base, Parent: newID(), Lib: base}
 		if base > 0 && r.Chance(50) {
 			root.Lib = base - uint64(r.Intn(int(min64(base, 3))+1))
+		}
+		if frozen {
+			root.Lib = base
 		}
 		t.byID[root.ID] = root // known to the tree for ancestry, added to history optionally
 	default:
@@ -504,6 +509,9 @@ func fkGenTree(r *Rng, n int, mode string, first uint64, wild bool) *fkTree {
 			if !wild {
 				b.Lib = parent.Lib
 			}
+		}
+		if frozen {
+			b.Lib = base
 		}
 		t.add(b)
 		all = append(all, b)
